@@ -54,6 +54,7 @@ func VerifC10Rotate() {
 	ctx := context.Background()
 	st := &vfs.Storage{}
 	t0 := vf.Now()
+	vf.ShortScenario(t0, time.Second)
 	vfDeadline = t0.Add(time.Second)
 	vfStoreRoots(ctx, st, t0)
 	nodeA := vfEnroll(ctx, st, vfs.State("state-of-A"))
@@ -129,6 +130,7 @@ func VerifC10Adversary() {
 	ctx := context.Background()
 	inner := &vfs.Storage{}
 	t0 := vf.Now()
+	vf.ShortScenario(t0, time.Second)
 	vfs.StoreRoots(ctx, inner, t0)
 	r1, r1prev, r2, m, stranger := vfParty{2, 0, 10}, vfParty{6, 3, 13}, vfParty{3, 1, 11}, vfParty{4, 2, 12}, vfParty{2, 4, 10}
 	rec1, rec2, recM := r1.record("n1", "state-1"), r2.record("n1", "state-2"), m.record("n2", "state-m")
